@@ -34,6 +34,10 @@ LEVEL_TEXT = ("Lean 4 proofs: chunked_decode_eq_whole (any decoder, any chunking
 TECHNIQUE = "Lean 4 theorems (invariant by induction over schedules; decoder homomorphism) + gated-thread model/implementation correspondence"
 
 ALPHABET = [0x41, 0xC3, 0xA9, 0xE2, 0x82, 0xAC, 0xFF]
+# stateless and stateful codecs, with and without a byte-order mark (plain "utf-16"/"utf-32" are left out: their
+# incremental decoders raise on BOM-less streams on the unchanged tree as well)
+ENCODINGS = ["latin-1", "utf-16-le", "utf-16-be", "utf-32-le", "shift_jis", "cp1252", "ascii", "utf-8-sig", "iso8859-15",
+             "cp1251", "gbk", "big5", "euc_jp", "iso2022_jp", "cp932", "utf-7"]
 
 
 def scripted_run(chunks, err_chunks=(), hide=None, encoding="utf-8", explicit=False, pty=False, read_size=None):
@@ -185,7 +189,12 @@ def run(ctx):
                 cases.append({"kind": "scripted", "chunks": [c.hex() for c in sp]})
     out.exhaustive = True
     for _ in range(ctx.n(400, 4000)):
-        bs = bytes(rng.choice(ALPHABET + [0xF0, 0x9F, 0x98, 0x80, 0x0A, 0x20]) for _ in range(rng.randint(0, 40)))
+        bs = bytes(rng.choice(ALPHABET + [0xF0, 0x9F, 0x98, 0x80, 0x0A, 0x20, 0x61, 0x62]) for _ in range(rng.randint(0, 40)))
+        if rng.random() < 0.35:  # byte-order marks and other multi-byte units at arbitrary offsets
+            unit = rng.choice([b"\xef\xbb\xbf", b"\xff\xfe", b"\xfe\xff", b"\x83A", b"\x1b$B", b"\x8e\xa1", b"\x00"])
+            for _ in range(rng.choice([1, 1, 2])):
+                k = rng.randint(0, len(bs))
+                bs = bs[:k] + unit + bs[k:]
         ck, i = [], 0
         while i < len(bs):
             k = rng.choice([1, 1, 2, 3, 7])
@@ -195,8 +204,25 @@ def run(ctx):
         cases.append({"kind": "scripted", "chunks": [c.hex() for c in ck], "err": [x.hex() for x in (ebs[:3], ebs[3:]) if x],
                       "hide": rng.choice([None, True, False, "out", "err", "both", "stdout", "stderr"]),
                       "explicit": rng.random() < 0.3, "pty": rng.random() < 0.2,
-                      "enc": rng.choice(["utf-8"] * 5 + ["latin-1", "utf-16-le", "shift_jis", "cp1252", "ascii"]),
+                      "enc": rng.choice(["utf-8"] * 6 + ENCODINGS),
                       "read_size": rng.choice([None, None, 1, 2, 3])})
+    # structured family: for every codec, ASCII-only reads followed by a read that STARTS with a special unit
+    # (byte-order mark, lead byte, escape sequence), and units split across the read boundary
+    units = [b"\xef\xbb\xbf", b"\xff\xfe", b"\xfe\xff", b"\xc3\xa9", b"\xe2\x82\xac", b"\x83A", b"\x1b$B", b"\x1b(B", b"\x8e\xa1",
+             b"+AGE-", b"\xa4\xa2", b"\xff", b"\x00A"]
+    for enc, unit, mode, _rep in itertools.product(["utf-8"] + ENCODINGS, units, ["at-boundary", "split-unit", "one-read"],
+                                                   range(ctx.n(1, 6))):
+        if True:
+            pre = bytes(rng.choice(b"abc xyz\n") for _ in range(rng.randint(1, 12)))
+            tail = bytes(rng.choice(b"ab=\n" + unit) for _ in range(rng.randint(0, 8)))
+            k = rng.choice([0, 0, 1, 2]) if len(unit) > 1 else 0
+            if mode == "at-boundary":
+                ck = [pre[:len(pre) // 2], pre[len(pre) // 2:], unit + tail]
+            elif mode == "split-unit":
+                ck = [pre + unit[:max(1, min(k, len(unit) - 1))], unit[max(1, min(k, len(unit) - 1)):] + tail]
+            else:
+                ck = [pre + unit + tail]
+            cases.append({"kind": "scripted", "chunks": [c.hex() for c in ck if c], "enc": enc, "hide": rng.choice([None, True])})
     lines = ["D|" + ",".join(c["chunks"]) for c in cases]
     model = drv.run(lines) if ctx.model_ok else [None] * len(cases)
     results = common.guarded_map(run_scripted_case, cases, stall=30)
